@@ -1023,6 +1023,7 @@ copy_substitute_decl(CPPScope *to_scope, CPPDeclaration::SubstDecl &subst,
                         new CPPIdentifier(to_scope->_name, _struct_type->_file),
                         native_scope, to_scope, _struct_type->_file);
     to_scope->_struct_type->_incomplete = false;
+    to_scope->_struct_type->_final = _struct_type->_final;
 
     // Within its own members, the name of the class means the class that is
     // being made (the injected class name), not the template.  (When we get
